@@ -312,7 +312,7 @@ package decimal
 //@   hint[after:sub#5] len(result) >= 1 ==> P_mono(0, len(result)-1)
 
 //@ func (z *Decimal) umul(x, y *Decimal)
-//@   requires[wf]    z != nil && z.prec >= 1 && z.mode <= 5 && finop(x) && finop(y) && sep(z, x) && sep(z, y) && len(x.mant) <= 10000000 && len(y.mant) <= 10000000
+//@   requires[wf]    z != nil && z.prec >= 1 && z.mode <= 5 && finop_long(x) && finop_long(y) && sep(z, x) && sep(z, y) && len(x.mant) <= 10000000 && len(y.mant) <= 10000000
 //@   modifies z.acc, z.exp, z.form, z.mant, memcap(z.mant)
 //@   ensures[form,C08] (z.form == finite || z.form == zero || z.form == inf) && 0 - 1 <= z.acc && z.acc <= 1
 //@   ensures[inrange,C03] MinExp + 18 <= old(x.exp) + old(y.exp) && old(x.exp) + old(y.exp) <= MaxExp - 1 && 19*(old(len(x.mant)) + old(len(y.mant))) <= z.prec ==> z.form == finite
@@ -645,6 +645,7 @@ package decimal
 
 //@ define addop_wf(z, x, y) = z != nil && opnd_long(x) && opnd(y) && (x.form == finite && y.form == zero ==> valid(x)) && sep(z, x) && sep(z, y) && z.mode <= 5 && z.prec <= 1000000000 && x.prec <= 1000000000 && y.prec <= 1000000000 && (x.form == finite ==> len(x.mant) <= 20000000) && (y.form == finite ==> len(y.mant) <= 10000000)
 //@ define binop_wf(z, x, y) = z != nil && opnd(x) && opnd(y) && sep(z, x) && sep(z, y) && z.mode <= 5 && z.prec <= 1000000000 && x.prec <= 1000000000 && y.prec <= 1000000000 && len(x.mant) <= 10000000 && len(y.mant) <= 10000000
+//@ define mulop_wf(z, x, y) = z != nil && opnd_long(x) && opnd_long(y) && sep(z, x) && sep(z, y) && z.mode <= 5 && z.prec <= 1000000000 && x.prec <= 1000000000 && y.prec <= 1000000000 && (x.form == finite ==> len(x.mant) <= 10000000) && (y.form == finite ==> len(y.mant) <= 10000000)
 //@ define newprec2(z, x, y) = old(z.prec) == 0 ? max(old(x.prec), old(y.prec)) : old(z.prec)
 //@ define buffer_ok(z) = (z.mant.arr == old(z.mant.arr) && z.mant.off == old(z.mant.off) && cap(z.mant) == old(cap(z.mant))) || fresh(z.mant)
 
@@ -717,7 +718,7 @@ package decimal
 //@   onpanic[valid,C04,C08] valid(z)
 
 //@ func (z *Decimal) Mul(x, y *Decimal) *Decimal
-//@   requires[wf] binop_wf(z, x, y)
+//@   requires[wf] mulop_wf(z, x, y)
 //@   modifies z.prec, z.acc, z.form, z.neg, z.exp, z.mant, memcap(z.mant)
 //@   ensures[result] result == z
 //@   ensures[prec,C09] z.prec == newprec2(z, x, y)
